@@ -131,8 +131,17 @@ def again_case(m, default, line_msg, first, opaque):
 
 def foreign(rng):
     """(pdu, default alphabet, expected field dict, kind)"""
-    k = rng.randrange(10)
+    k = rng.randrange(11)
     seq = rng.randrange(1, 2 ** 31)
+    if k == 10:         # octet-string parameters whose value contains NUL octets (network_error_code, callback_num ...)
+        vals = [(0x0423, bytes([3, 0, rng.randrange(1, 128)])), (0x0381, bytes([1, 0, 0]) + b'12345'),
+                (0x1383, bytes([rng.randrange(128), 0, 5])), (0x1401, b'a\x00b\x00c'), (0x0204, struct.pack('!H', 7))]
+        rng.shuffle(vals)
+        vals = vals[:rng.randrange(1, 6)]
+        body = S.sm_body(dst=(1, 1, '555'), data_coding=1, short_message=b'ok', tlvs=vals)
+        exp = {'short_message': 'ok',
+               'params': sorted((t, int.from_bytes(v, 'big') if t == 0x0204 else v.decode('ascii')) for t, v in vals)}
+        return S.pdu(S.DELIVER_SM, 0, seq, body), 'gsm0338', exp, 'octets-with-nul'
     if k == 0:          # TLVs in arbitrary order around message_payload
         tlvs = [(0x0204, struct.pack('!H', rng.randrange(65536)), 'int'), (0x001E, b'abc123\x00', 'cstr'),
                 (0x0424, 'payload text'.encode('ascii'), 'payload'), (0x020A, struct.pack('!H', 7), 'int'),
